@@ -36,6 +36,28 @@ pub struct Args {
     pub seed: u64,
 }
 
+/// A poll of the code under test that does not return within the limit is reported as a violation (the subject
+/// loops forever inside one poll; no horizon can see that) and the process ends with exit 1.
+fn spawn_stuck_watchdog(property: &str, tier: Tier) {
+    let property = property.to_string();
+    let limit = std::time::Duration::from_secs(std::env::var("VERIF_STUCK_LIMIT_S").ok().and_then(|s| s.parse().ok()).unwrap_or(90));
+    explore::watch::start(limit, move |case, secs| {
+        let out = explore::report::out_root();
+        let dir = out.join("replays").join(&property);
+        let _ = std::fs::create_dir_all(&dir);
+        let sig = format!("{property}:stuck:a-single-poll-does-not-return");
+        let path = dir.join(format!("{}_stuck_a-single-poll-does-not-return.json", property));
+        let what = format!(
+            "a worker has been inside ONE poll of the code under test for {secs} s (case index {case:?} of the {} tier's deterministic case list): the code loops without returning; replaying re-runs the tier under the same watchdog",
+            tier.name()
+        );
+        let body = serde_json::json!({"property": property, "signature": sig, "what": what, "replay": {"kind": "stuck", "tier": tier.name(), "case_index": case}});
+        let _ = std::fs::write(&path, serde_json::to_string_pretty(&body).unwrap());
+        println!("VIOLATION property={property} replay={}   # signature={sig} :: {what}", path.display());
+        std::process::exit(1);
+    });
+}
+
 fn main() {
     let argv: Vec<String> = std::env::args().collect();
     if argv.len() >= 3 && argv[1] == "--replay" {
@@ -60,6 +82,7 @@ fn main() {
         .unwrap_or(0u64);
     common::install_panic_hook();
     spawn_rss_watchdog();
+    spawn_stuck_watchdog(&argv[1], tier);
     let args = Args { tier, seed };
     let code = match argv[1].as_str() {
         "C01" => c01::run(&args),
@@ -125,6 +148,19 @@ fn replay(path: &str) -> i32 {
     println!("replaying {} signature={}", prop, v["signature"].as_str().unwrap_or(""));
     println!("expected failure: {}", v["what"].as_str().unwrap_or(""));
     let r = &v["replay"];
+    if r["kind"] == "stuck" {
+        // re-run the tier under the same watchdog, with the evidence going elsewhere
+        let exe = std::env::current_exe().expect("own path");
+        let st = std::process::Command::new(exe)
+            .arg(prop)
+            .arg(r["tier"].as_str().unwrap_or("quick"))
+            .env("VERIF_OUT", std::env::temp_dir().join("h3verif-stuck-replay"))
+            .status();
+        return match st {
+            Ok(s) => s.code().unwrap_or(2),
+            Err(_) => 2,
+        };
+    }
     match prop {
         "C01" => c01::replay(r),
         "C02" => c02::replay(r),
